@@ -1,10 +1,13 @@
 """C01 - interpreted programs behave exactly like the same program compiled by gc (DESIGN 7/C01).
 
-Four sub-parts, one check (the defer/panic/recover part, PanicFlow, lives under C12):
+Six sub-parts, one check (the report format of Stop / Fatal / PanicError chains, PanicFlow, lives under C12):
   intalu     IntALU.tla     integer arithmetic at every width / shifts / conversions / division faults
   initorder  InitOrder.tla  package-level initialisation order and initialisation cycles
   conv       StrConv.tla    int -> string, []byte / []rune <-> string
   minigo     MiniGo.tla     reference interpreter of a structured mini language, seeded programs
+  deferflow  MiniGoFlow.tla every defer / panic / recover program (a tree of functions) up to a number of nodes,
+                            enumerated by TLC and run by the same reference interpreter
+  misc       GoMisc.tla     variadic calls, select with one ready case, uses of one constant at several types
 The reference is the TLA+ specification; gc is only the oracle guard on the violation path.
 """
 import json, os, re, random, shutil, subprocess, concurrent.futures as cf
@@ -14,19 +17,21 @@ from rig import Infra
 META = {
     "title": "Interpreted programs behave like gc",
     "engine": "GoSem",
-    "technique": "TLA+ reference of Go semantics (IntALU over BigInt, InitOrder, StrConv over Utf8, MiniGo interpreter) + implementation-shaped models of the VM's per-kind truncation switches and of the checker's declaration sort, model-checked exhaustively by TLC; TLC exports the case space (and, for MiniGo, runs every seeded program to completion to obtain its output); a Go driver writes each case as Go source, builds and runs it with the real scriggo.Build/Run; a TLC Trace spec judges every observation against the reference; gc is consulted only for failing cases (oracle guard)",
+    "technique": "TLA+ reference of Go semantics (IntALU over BigInt, InitOrder, StrConv over Utf8, the MiniGo interpreter incl. call frames with defer / panic / recover, GoMisc: variadic calls, select, constant uses) + implementation-shaped models of the VM's per-kind truncation switches and of the checker's declaration sort (sortDeclarations / funcVarsResolved / checkDepsPath), model-checked exhaustively by TLC; TLC exports the case spaces - for MiniGo it runs every program to completion to obtain its output, and it enumerates every defer/panic/recover program (tree of functions) up to a number of nodes; a Go driver writes each case as Go source (in up to four source forms), builds and runs it with the real scriggo.Build/Run; a TLC Trace spec judges every observation against the reference; gc is consulted only for failing cases (oracle guard)",
     "level": "model_checking",
-    "level_text": "TLC model-checks Impl(op,kind,x,y) against Ref for all 11 integer kinds x 17 binary + 2 unary operators + conversions x boundary operands x shift counts of every count kind (register and constant-operand forms); the declaration-sort algorithm of the checker against the Go spec's initialisation algorithm for all dependency graphs over 3 variables + 1 function with at most 3 edges (thorough: all 65 536 graphs over 3 + 1, and all graphs over 4 variables + 2 functions with at most 3 edges); the same cases are run through the real Build/Run in up to three source forms each and every printed value / panic message / build outcome is judged by the TLA+ reference. MiniGo programs (labelled loops, switch/fallthrough, goto, closures, arrays/structs/slices/maps, strings, run-time faults) are interpreted by TLC and their output compared with the real run.",
-    "level_note": "Trusted: TLC, lib/BigInt.tla and lib/Utf8.tla, the concretiser (record -> Go source by string templates) and the print capture of the driver. gc is not on the passing path. Not covered: floating point and complex numbers, print formatting of floats, the // run corpus, goroutines (C14), defer/panic/recover bookkeeping (C12 PanicFlow), methods on Scriggo-defined types and generics (outside Scriggo's subset), register-allocation pressure beyond the generated programs.",
+    "level_text": "TLC model-checks Impl(op,kind,x,y) against Ref for all 11 integer kinds x 17 binary + 2 unary operators + conversions x boundary operands x shift counts of every count kind (register and constant-operand forms); the declaration-sort algorithm of the checker, under both textual orders of the dependencies, against the Go spec's initialisation algorithm for all dependency graphs over 3 variables + 1 function with at most 3 edges and all 'through functions' graphs (no direct variable -> variable edge; chains, recursion and mutual recursion of functions) over 3 variables + 2 functions with at most 5 edges (thorough: all 65 536 graphs over 3 + 1, all graphs over 4 + 2 with at most 3 edges, through-functions graphs with at most 6 edges); the same cases are run through the real Build/Run in up to four source forms each and every printed value / panic message / build outcome is judged by the TLA+ reference. MiniGo programs (labelled break / continue across for, range and switch, switch/fallthrough, goto, closures, arrays/structs/slices/maps, strings, run-time faults, operand evaluation order of println) are interpreted by TLC and their output compared with the real run; every defer/panic/recover program of at most 5 (thorough 6) nodes - nested calls, deferred calls, panics raised while panicking, recover at every position - is enumerated and interpreted by TLC and run as top-level functions and as function literals; every variadic call shape (0..2 fixed, 0..3 variadic arguments or a nil / empty / non-empty slice spread), every select over 2..3 buffered channels with exactly one (or no) ready case, and every sequence of up to 3 (thorough 4) uses of one bool / int constant at different types is run and judged.",
+    "level_note": "Trusted: TLC, lib/BigInt.tla and lib/Utf8.tla, the concretiser (record -> Go source by string templates) and the print capture of the driver. gc is not on the passing path. The final outcome judged for a panic is the message of the newest panic (PanicError.String); the chain format and Stop/Fatal are C12's. Not covered: floating point and complex numbers, print formatting of floats, the // run corpus, goroutines and unbuffered channels (C14), methods on Scriggo-defined types and generics (outside Scriggo's subset), runtime.Goexit, panic values other than int and run-time errors, named results modified by deferred closures (where the Go specification's wording on recover() leaves room - a deferred call run by an ordinary return while an outer panic is in progress - the reference follows gc: nil; the reference was audited against gc on 572 programs of the defer/panic/recover space), register-allocation pressure beyond the generated programs.",
     "design_ref": "7/C01",
 }
 FAMS = ["gosem"]
 
 # Genuine defects demonstrated on the unchanged tree (see the report of this family); the integrator
 # fixes them in /repo or moves the entries into known-findings.json.
-PROPOSED_KNOWN = []   # four defects found by this check were fixed in /repo; the others (negative shift count, labelled break/continue, pre-1.22 loop variables) are known findings (known-findings.json)
+_I83 = " (upstream issue open2b/scriggo#83: labelled break and continue are not implemented; emitter_statements.go case *ast.Break / *ast.Continue)"
+PROPOSED_KNOWN = []   # integrated into known-findings.json
 
-BASE = {"intalu": 0, "initorder": 1000000, "conv": 2000000, "minigo": 3000000}
+BASE = {"intalu": 0, "initorder": 1000000, "conv": 2000000, "minigo": 3000000, "deferflow": 4000000, "misc": 5000000}
+NO_ALT = {"out": [], "outcome": "none", "msg": []}
 
 
 # ------------------------------------------------------------------------------------------ parts
@@ -64,23 +69,35 @@ def mc_violations(out):
 
 
 def part_initorder(ctx):
-    runs = ctx.pick([(3, 1, 3)], [(3, 1, 16), (4, 2, 3)])
+    # (variables, functions, max edges, thru, both): thru = 1 is the space of graphs without direct variable -> variable edges
+    # (variables depend on each other only through the functions' call graph: chains, recursion, mutual recursion)
+    # both: the driver writes each graph with its dependencies mentioned in ascending and in descending order
+    runs = ctx.pick([(3, 1, 3, 0, 1), (3, 2, 5, 1, 1)], [(3, 1, 16, 0, 0), (4, 2, 3, 0, 1), (3, 2, 6, 1, 1)])
     cases, info = [], {"states": 0, "transitions": 0, "mc_wall_s": 0, "bounds": [], "mc_invariants": ["ImplMeetsRef", "RefTotal"]}
     viol = {}
-    for k, (nv, nf, me) in enumerate(runs):
+
+    def one(k):
+        nv, nf, me, thru, both = runs[k]
         wd = ctx.stage(f"mc_initorder_{k}", FAMS)
-        rig.write_cfg(wd / "MC_InitOrder.cfg", constants={"NV": nv, "NF": nf, "MaxEdges": me}, invariants=["ImplMeetsRef", "RefTotal"])
-        r = ctx.tlc(wd, "MC_InitOrder", workers=rig.NCPU, timeout=1500, extra=["-continue"])
+        rig.write_cfg(wd / "MC_InitOrder.cfg", constants={"NV": nv, "NF": nf, "MaxEdges": me, "Thru": thru, "BothOrders": both},
+                      invariants=["ImplMeetsRef", "RefTotal"])
+        r = ctx.tlc(wd, "MC_InitOrder", workers=max(2, rig.NCPU // 2), timeout=1500, extra=["-continue"])
         if "Model checking completed" not in r.out:
             raise Infra(f"MC_InitOrder did not complete: {wd}/MC_InitOrder.out\n" + rig.tail(r.out, 25))
-        cs = rig.read_ndjson(wd / "cases.ndjson")
+        return r, rig.read_ndjson(wd / "cases.ndjson")
+    with cf.ThreadPoolExecutor(max_workers=len(runs)) as ex:
+        results = list(ex.map(one, range(len(runs))))
+    for k, (r, cs) in enumerate(results):
+        nv, nf, me, thru, both = runs[k]
         for c in cs:
             c["id"] += k * 100000
         cases += cs
         info["states"] += r.distinct
         info["transitions"] += r.generated
-        info["mc_wall_s"] += round(r.wall, 1)
-        info["bounds"].append({"variables": nv, "functions": nf, "max_edges": me, "graphs": len(cs)})
+        info["mc_wall_s"] = round(max(info["mc_wall_s"], r.wall), 1)
+        info["bounds"].append({"variables": nv, "functions": nf, "max_edges": me, "graphs": len(cs),
+                               "edges": "any" if not thru else "no direct variable -> variable edge (dependencies through functions)",
+                               "programs": sum(len(c["orders"]) for c in cs)})
         for name, n in mc_violations(r.out).items():
             viol[name] = viol.get(name, 0) + n
     info["cases"] = len(cases)
@@ -407,13 +424,93 @@ def mg_faults(rng, variant=None):
     return {"nv": vs.n, "body": body, "fault": kind}
 
 
+def Range_(label, iv, rv, e, body): return {"s": "ranges", "label": label, "iv": iv, "rv": rv, "e": e, "body": body}
+
+
+LABEL_KINDS = [o + "-" + i + "-" + j for o, i in (("for", "switch"), ("for", "range"), ("range", "range"), ("range", "for"), ("for", "for3"))
+               for j in ("break", "continue")]
+
+
+def mg_labels(rng, variant=None):
+    """A labelled outer loop (for or range over a string) around an inner switch / range / for (for3: two nested fors
+    around an if, the jump leaves / continues the outermost); the inner statement jumps to the outer label."""
+    variant = variant or rng.choice(LABEL_KINDS)
+    outer, inner, jump = variant.split("-")
+    vs = Vars()
+    i, j, k, acc, s1, s2, r1, r2 = [vs.new() for _ in range(8)]
+    A, B, M = rng.randint(3, 5), rng.randint(2, 4), rng.randint(2, 3)
+    J = Jump(jump, "L")
+    hit = Cmp("==", Mod(Bin("+", V(i), V(j)), M), C(rng.randint(0, M - 1)))
+    upd = SetV(acc, Mod(Bin("+", Bin("*", V(acc), C(3)), Bin("+", V(i), V(j))), 1000))
+    body = [Decl(acc, C(rng.randint(0, 5)))]
+    if inner == "switch":
+        # the jump is taken the first time i % 3 == 1 (and i >= 1 then): the label decides what happens next
+        clauses = [{"def": False, "vals": [1], "body": [PI(C(10), V(i)), If(Cmp(">=", V(i), C(rng.randint(0, 1))), [J]), PI(C(11), V(i))], "ft": rng.random() < 0.4},
+                   {"def": False, "vals": [0], "body": [PI(C(20), V(i))], "ft": False},
+                   {"def": True, "vals": [], "body": [PI(C(30), V(i)), If(Cmp("==", Mod(V(i), 2), C(rng.randint(0, 1))), [Jump("break")]), PI(C(31), V(i))], "ft": False}]
+        rng.shuffle(clauses)
+        clauses[-1]["ft"] = False
+        inner_stmt = [{"s": "switch", "e": Mod(V(i), 3), "clauses": clauses}]
+    else:
+        ib = [If(hit, [PI(C(-1), V(i), V(j)), J]), upd, PI(V(i), V(j), V(acc))]
+        if inner == "range":
+            body.append(Decl(s2, STR(rand_str(rng, 2, 4))))
+            inner_stmt = [Range_("", j, r2, V(s2), ib)]
+        elif inner == "for":
+            inner_stmt = [For("", j, C(0), Cmp("<", V(j), C(B)), Inc(j), ib)]
+        else:   # for3: one more loop level between the label and the jump
+            inner_stmt = [For("", k, C(0), Cmp("<", V(k), C(2)), Inc(k), [For("", j, C(0), Cmp("<", V(j), C(B)), Inc(j), ib), PI(C(-3), V(k))])]
+    ob = inner_stmt + [PI(C(-2), V(i), V(acc))]
+    if outer == "range":
+        body += [Decl(s1, STR(rand_str(rng, 3, 5))), Range_("L", i, r1, V(s1), ob)]
+    else:
+        body.append(For("L", i, C(0), Cmp("<", V(i), C(A)), Inc(i), ob))
+    body.append(PI(V(acc)))
+    return {"nv": vs.n, "body": body, "variant": variant}
+
+
+def mg_evalorder(rng):
+    """the operands of println (function calls that print themselves) are all evaluated before anything is printed"""
+    vs = Vars()
+    f, g, c = vs.new(), vs.new(), vs.new()
+    a, b = rng.randint(2, 9), rng.randint(11, 19)
+    clo = lambda tag, ret: {"e": "clo", "body": [SetV(c, Bin("+", V(c), C(1))), PI(C(tag), V(c)), {"s": "ret", "e": ret}]}
+    body = [Decl(c, C(0)), Decl(f, clo(100, Bin("+", V(c), C(a)))), Decl(g, clo(200, Bin("*", V(c), C(b)))),
+            PI(C(1), Call(V(f))),
+            PI(Call(V(g)), C(2), Call(V(f))),
+            PI(V(c))]
+    return {"nv": vs.n, "body": body, "variant": "print-call-arg"}
+
+
+def strip_labels(v):
+    """the same statements with the label of every break / continue erased (the variant that MC_MiniGo also runs)"""
+    if isinstance(v, dict):
+        d = {k: strip_labels(x) for k, x in v.items()}
+        if d.get("s") in ("break", "continue"):
+            d["label"] = ""
+        return d
+    if isinstance(v, list):
+        return [strip_labels(x) for x in v]
+    return v
+
+
+def has_labelled_jump(v):
+    if isinstance(v, dict):
+        return (v.get("s") in ("break", "continue") and v.get("label", "") != "") or any(has_labelled_jump(x) for x in v.values())
+    if isinstance(v, list):
+        return any(has_labelled_jump(x) for x in v)
+    return False
+
+
 # every (shape, variant) pair is generated in turn, so that each run covers all of them
 MG_VARIANTS = ([(mg_loops, v) for v in ("plain", "break-outer", "continue-outer", "break-own-label", "continue-own-label")]
                + [(mg_switch, None), (mg_goto, None)]
                + [(mg_closures, v) for v in ("loopvar", "bodyvar", "append", "counter")]
                + [(mg_values, None), (mg_slices, None), (mg_maps, None)]
                + [(mg_strings, v) for v in ("plain", "range-continue-label")]
-               + [(mg_faults, v) for v in FAULT_KINDS])
+               + [(mg_faults, v) for v in FAULT_KINDS]
+               + [(mg_labels, v) for v in LABEL_KINDS]
+               + [(mg_evalorder, None)])
 
 
 def mg_programs(rng, n):
@@ -423,15 +520,17 @@ def mg_programs(rng, n):
         p = f(rng, variant) if variant else f(rng)
         p["id"] = k + 1
         p["shape"] = f.__name__[3:] + (":" + p.pop("fault") if "fault" in p else "") + (":" + p.pop("variant") if "variant" in p else "")
+        p["funcs"] = []
+        p["altbody"] = strip_labels(p["body"]) if has_labelled_jump(p["body"]) else []
         out.append(p)
     return out
 
 
 MG_ALL_KINDS = {"e:" + k for k in ("c", "str", "v", "bin", "cmp", "and", "or", "not", "idx", "mapget", "len", "cap", "slice", "field", "addr",
                                    "nilptr", "nilmap", "nilslice", "mkmap", "mkslice", "mkfuncs", "lit", "slicelit", "append", "clo", "call",
-                                   "box", "assert")} | \
+                                   "box", "assert", "fn", "recover", "isnil")} | \
                {"s:" + k for k in ("nop", "label", "decl", "set", "print", "if", "for", "ranges", "switch", "break", "continue", "goto", "del",
-                                   "expr", "ret")}
+                                   "expr", "ret", "defer", "panic")}
 
 
 def mg_kinds(v, acc):
@@ -485,8 +584,8 @@ def part_minigo(ctx):
                 if e["outcome"] not in ("ok", "panic"):
                     raise Infra(f"MiniGo generator produced a program outside the interpreter's domain: id {p['id']} shape {p['shape']}")
                 shapes[p["shape"]] = shapes.get(p["shape"], 0) + 1
-                cases.append({"id": p["id"], "fam": "minigo", "shape": p["shape"], "prog": {"nv": p["nv"], "body": p["body"]},
-                              "exp": {"out": e["out"], "outcome": e["outcome"], "msg": e["msg"]}})
+                cases.append({"id": p["id"], "fam": "minigo", "shape": p["shape"], "prog": {"nv": p["nv"], "body": p["body"], "funcs": []},
+                              "exp": {"out": e["out"], "outcome": e["outcome"], "msg": e["msg"]}, "alt": e["alt"]})
     info["cases"] = len(cases)
     info["shapes"] = shapes
     # which syntactic categories of the interpreter the generated programs exercise (measured on the batch)
@@ -494,10 +593,60 @@ def part_minigo(ctx):
     mg_kinds(progs, used)
     info["interpreter_cases_never_exercised"] = sorted(MG_ALL_KINDS - used)
     info["expected_panics"] = sum(1 for c in cases if c["exp"]["outcome"] == "panic")
+    info["labelled_jump_programs"] = sum(1 for c in cases if c["alt"]["outcome"] != "none")
+    info["labelled_jump_programs_where_the_label_matters"] = sum(1 for c in cases if c["alt"]["outcome"] != "none" and
+                                                                 (c["alt"]["out"], c["alt"]["outcome"]) != (c["exp"]["out"], c["exp"]["outcome"]))
     return cases, info
 
 
-PARTS = [("intalu", part_intalu), ("initorder", part_initorder), ("conv", part_conv), ("minigo", part_minigo)]
+def part_deferflow(ctx):
+    """All defer / panic / recover programs (trees of functions, MiniGoFlow.tla) with at most n nodes: TLC enumerates the
+    trees, runs the reference interpreter on each and prints one case per program whose nodes all ran."""
+    n, lit = ctx.pick((5, 4), (6, 5))     # nodes; the function-literal source form is written for programs up to lit nodes
+    wd = ctx.stage("mc_deferflow", FAMS)
+    (wd / "MiniGoFlowCfg.tla").write_text("---- MODULE MiniGoFlowCfg ----\nMgfMaxNodes == %d\nMgfLiteralUpTo == %d\n====\n" % (n, lit))
+    rig.write_cfg(wd / "MC_MiniGoFlow.cfg", invariants=["InDomain"])
+    r = ctx.tlc(wd, "MC_MiniGoFlow", workers=max(2, rig.NCPU // 2), timeout=1500, must_pass=True)
+    cases = []
+    for l in r.out.splitlines():
+        if l.startswith('<<"CASE", "') and l.endswith('">>'):
+            cases.append(json.loads(json.loads(l[len('<<"CASE", '):-2])))
+    cases.sort(key=lambda c: c["id"])
+    if not cases or len({c["id"] for c in cases}) != len(cases):
+        raise Infra(f"MC_MiniGoFlow exported {len(cases)} cases (duplicate ids or none): {wd}/MC_MiniGoFlow.out")
+    trees = r.distinct // 2
+    used = set()
+    mg_kinds([c["prog"] for c in cases[:2000]], used)
+    info = {"states": r.distinct, "transitions": r.generated, "mc_wall_s": round(r.wall, 1), "mc_invariants": ["InDomain"],
+            "max_nodes": n, "trees": trees, "cases": len(cases), "dropped_some_node_never_runs": trees - len(cases),
+            "source_forms": {"named": len(cases), "literal (programs of at most %d nodes)" % lit: sum(1 for c in cases if "literal" in c["forms"])},
+            "expected_panics": sum(1 for c in cases if c["exp"]["outcome"] == "panic"),
+            "interpreter_cases_exercised": sorted(used)}
+    return cases, info
+
+
+def part_misc(ctx):
+    wd = ctx.stage("mc_misc", FAMS)
+    invs = ["VariadicSane", "SelectSane", "ConstUseSane"]
+    depth = ctx.pick(3, 4)
+    rig.write_cfg(wd / "MC_GoMisc.cfg", constants={"Depth": depth}, invariants=invs)
+    r = ctx.tlc(wd, "MC_GoMisc", workers=4, timeout=1500, must_pass=True)
+    cases = []
+    for rec in rig.read_ndjson(wd / "cases.ndjson"):
+        c = dict(rec["c"])
+        c["id"] = rec["id"]
+        cases.append(c)
+    by = {}
+    for c in cases:
+        by[c["fam"]] = by.get(c["fam"], 0) + 1
+    info = {"states": r.distinct, "transitions": r.generated, "mc_wall_s": round(r.wall, 1), "mc_invariants": invs,
+            "cases": len(cases), "cases_by_family": by, "constuse_max_uses": depth}
+    return cases, info
+
+
+PARTS = [("intalu", part_intalu), ("initorder", part_initorder), ("conv", part_conv), ("minigo", part_minigo),
+         ("deferflow", part_deferflow), ("misc", part_misc)]
+MISC_FAMS = ("variadic", "select", "constuse")
 
 
 # ------------------------------------------------------------------------------------------ helpers
@@ -505,11 +654,13 @@ def case_from_obs(o):
     if o["fam"] == "intalu":
         return {k: o[k] for k in ("id", "fam", "op", "k", "k2", "x", "y", "forms")}
     if o["fam"] == "initorder":
-        return {k: o[k] for k in ("id", "fam", "nv", "nf", "deps")}
+        return {k: o[k] for k in ("id", "fam", "nv", "nf", "deps", "orders")}
     if o["fam"] == "conv":
         return {k: o[k] for k in ("id", "fam", "op", "k", "v", "a")}
     if o["fam"] == "minigo":
-        return {k: o[k] for k in ("id", "fam", "shape", "prog", "exp")}
+        return {k: o[k] for k in ("id", "fam", "shape", "forms", "prog", "exp", "alt") if k in o}
+    if o["fam"] in MISC_FAMS:
+        return {k: v for k, v in o.items() if k not in ("outcome", "out", "msg", "src", "raw")}
     raise Infra("unknown family in observation: %r" % o.get("fam"))
 
 
@@ -525,10 +676,12 @@ def sample(o):
         return {"fam": "intalu", "expr": f'{o["k"]}({bigdec(o["x"])}) {o["op"]} {o["k2"]}({bigdec(o["y"])})', "form": o["form"],
                 "observed": o["t"], "value": bigdec(o["v"]), "widened": bigdec(o["w"]), "msg": o["msg"]}
     if o["fam"] == "initorder":
-        return {"fam": "initorder", "variables": o["nv"], "functions": o["nf"], "deps": o["deps"], "outcome": o["outcome"],
+        return {"fam": "initorder", "variables": o["nv"], "functions": o["nf"], "deps": o["deps"], "textual_order": o["form"], "outcome": o["outcome"],
                 "printed_order": o["order"], "msg": o["msg"][:200]}
     if o["fam"] == "minigo":
-        return {"fam": "minigo", "shape": o["shape"], "expected": mg_text(o["exp"])[-400:], "observed": mg_text(o)[-400:]}
+        return {"fam": "minigo", "shape": o["shape"], "form": o.get("form", ""), "expected": mg_text(o["exp"])[-400:], "observed": mg_text(o)[-400:]}
+    if o["fam"] in MISC_FAMS:
+        return {k: v for k, v in o.items() if k not in ("src", "raw", "id")}
     return {k: v for k, v in o.items() if k not in ("src", "raw")}
 
 
@@ -550,6 +703,10 @@ def nontrivial(o):
         return len(o["exp"]["out"]) > 1 or o["exp"]["outcome"] == "panic"
     if o["fam"] == "conv":        # something other than ASCII is involved
         return o["v"] > 127 or o["v"] < 0 or any(x > 127 or x < 0 for x in o["a"])
+    if o["fam"] == "variadic":    # nothing, or a slice, is passed for the variadic parameter
+        return o["mode"] == "spread" or o["nvar"] == 0
+    if o["fam"] == "constuse":    # the constant is used at two types or more
+        return len(set(o["uses"])) >= 2
     return True
 
 
@@ -581,6 +738,13 @@ def corrupt(o):
         o["out"] = (o["out"][:-1] + [o["out"][-1] ^ 1]) if o["out"] else [65]
         o["outcome"] = "ok"
         return o
+    if o["fam"] in MISC_FAMS:
+        o["outcome"] = "ok"
+        if o["fam"] == "constuse":
+            o["out"] = (["int8"] if not o["out"] or o["out"][0] != "int8" else ["bool"]) + o["out"][1:]
+        else:
+            o["out"] = ([o["out"][0] + 1] + o["out"][1:]) if o["out"] else [1]
+        return o
     if o["fam"] == "initorder":
         if o["outcome"] == "ok" and o["order"]:
             o["order"][0] = o["order"][0] % o["nv"] + 1 if o["nv"] > 1 else 7
@@ -599,9 +763,15 @@ def judge(ctx, step, recs, shards=1, per=2000):
     size = (len(recs) + n - 1) // n
     parts = [recs[i:i + size] for i in range(0, len(recs), size)]
 
+    def slim(o):   # what the Trace spec reads (the program text of a minigo case is not judged: exp carries its observable)
+        o = {k: v for k, v in o.items() if k not in ("prog", "forms", "src", "raw")}
+        if o["fam"] == "minigo":
+            o.setdefault("alt", NO_ALT)
+        return o
+
     def one(i):
         p = ctx.work / f"{step}_obs_{i}.ndjson"
-        rig.write_ndjson(p, parts[i])
+        rig.write_ndjson(p, [slim(o) for o in parts[i]])
         b, _ = rig.trace_judge(ctx, f"{step}_{i}", FAMS, "Trace_GoSem", p, timeout=1500)
         for x in b:
             x["obs"] = parts[i][x["k"] - 1]
@@ -628,13 +798,18 @@ def gc_raw(ctx, src, n):
 
 
 def normalise_gc(text, rc):
+    """printed lines + the panic that ended the program; of a chain ("panic: 1\\n\\tpanic: 2") the newest one, without
+    the [recovered] mark - what PanicError.String() of the returned error is compared with"""
     out = []
     lines = text.splitlines()
     if rc != 0 and not any(l.startswith("panic: ") or l.startswith("fatal error: ") for l in lines):
         return "builderror\n"       # compile error
+    last = None
     for l in lines:
-        if l.startswith("panic: "):
-            out.append(re.sub(r" \[recovered\]$", "", l))
+        if l.startswith("panic: ") or (last is not None and l.startswith("\tpanic: ")):
+            last = re.sub(r" \[recovered[^\]]*\]$", "", l.strip())
+            continue
+        if last is not None:
             break
         if l.startswith("fatal error: "):
             out.append(l)
@@ -642,6 +817,8 @@ def normalise_gc(text, rc):
         if l.startswith("exit status"):
             continue
         out.append(l)
+    if last is not None:
+        out.append(last)
     return "\n".join(out) + "\n"
 
 
@@ -667,12 +844,18 @@ def run(ctx, replay_cases=None):
                 infos[name] = info
     else:
         cases = replay_cases
+    if "minigo" in infos and "deferflow" in infos:   # syntactic categories of the interpreter that neither program space exercises
+        infos["minigo"]["interpreter_cases_never_exercised"] = sorted(set(infos["minigo"]["interpreter_cases_never_exercised"])
+                                                                      - set(infos["deferflow"].pop("interpreter_cases_exercised")))
     rig.write_ndjson(ctx.work / "cases.ndjson", cases)
     obs_p = ctx.work / "obs.ndjson"
     ctx.drive("c01", ctx.work / "cases.ndjson", obs_p, timeout=1500)
     allobs = rig.read_ndjson(obs_p)
+    prog_of = {c["id"]: c["prog"] for c in cases if c["fam"] == "minigo"}
     by_fam = {}
     for o in allobs:
+        if o["fam"] == "minigo":
+            o["prog"] = prog_of[o["id"]]       # (the driver does not echo the program text)
         by_fam.setdefault(o["fam"], []).append(o)
     for name in by_fam:
         infos.setdefault(name, {})["records_judged"] = len(by_fam[name])
@@ -682,13 +865,13 @@ def run(ctx, replay_cases=None):
         parts=infos,
         evaluations=len(allobs), traces_validated_against_impl=len(allobs),
         distinct_nontrivial=len({json.dumps(case_from_obs(o), sort_keys=True) + o.get("form", "") for o in allobs if nontrivial(o)}),
-        rule="minigo: seeded programs of 9 shapes (labelled loops, switch/fallthrough, goto, closures, array/struct/pointer values, slice aliasing, maps, strings, run-time faults), expected output computed by TLC; non-trivial = more than one printed line or a panic. conv: all conversions of the 12-value rune set / strings of <= MaxPieces well- and ill-formed UTF-8 pieces; non-trivial = a non-ASCII value is involved. initorder: every dependency graph of the bounded space, one program each; non-trivial = at least one edge. intalu: TLC-exported space (all kinds x operators x boundary operands x shift counts), each case in the source forms var / literal operand / op-assignment / if-condition; non-trivial = result wrapped, shifted out, divided, converted or panicked. One record per (case, form).",
+        rule="minigo: seeded programs of 11 shapes (labelled loops, labelled break / continue across for / range / switch, switch/fallthrough, goto, closures, array/struct/pointer values, slice aliasing, maps, strings, run-time faults, println operand order), expected output computed by TLC; deferflow: every tree of functions over the nodes call / defer / recover / panic with at most max_nodes nodes, all of whose nodes run, interpreted by TLC, in the source forms named / literal; non-trivial = more than one printed line or a panic. conv: all conversions of the 12-value rune set / strings of <= MaxPieces well- and ill-formed UTF-8 pieces; non-trivial = a non-ASCII value is involved. initorder: every dependency graph of the bounded spaces, one program per textual order of the dependencies; non-trivial = at least one edge. intalu: TLC-exported space (all kinds x operators x boundary operands x shift counts), each case in the source forms var / literal operand / op-assignment / if-condition; non-trivial = result wrapped, shifted out, divided, converted or panicked. variadic / select / constuse: the spaces of MC_GoMisc.tla, one program per case; non-trivial = nothing or a slice passed for the variadic parameter / every select / the constant used at two types or more. One record per (case, form).",
         exhaustive=True,
         samples=[sample(o) for fam in sorted(by_fam) for o in rig.pick_samples(by_fam[fam], 2, ctx.seed)],
     )
     ctx.cov["panic_message_detail_differs"] = sum(1 for o in by_fam.get("minigo", []) if o["outcome"] == "panic" and o["exp"]["outcome"] == "panic" and o["msg"] != o["exp"]["msg"])
     # judge
-    bads = judge(ctx, "trace", allobs, shards=ctx.pick(8, 14))
+    bads = judge(ctx, "trace", allobs, shards=ctx.pick(12, 14))
     ctx.cov["judged_bad_first_pass"] = len(bads)
     # sensitivity self-test: corrupted observations must be rejected by the same Trace spec (judged in the
     # same TLC runs as the reproduction guard below; their ids are shifted by ST)
@@ -724,6 +907,9 @@ def run(ctx, replay_cases=None):
         rig.write_ndjson(ctx.work / "confirm_cases.ndjson", cc)
         ctx.drive("c01", ctx.work / "confirm_cases.ndjson", ctx.work / "confirm_obs.ndjson", args=["-chunk", "1", "-keepsrc"], timeout=1500)
         cobs = rig.read_ndjson(ctx.work / "confirm_obs.ndjson")
+        for o in cobs:
+            if o["fam"] == "minigo":
+                o["prog"] = prog_of[o["id"]]
         slim = [{k: v for k, v in o.items() if k not in ("src", "raw")} for o in cobs]
         b23 = judge(ctx, "trace_confirm", slim + st, shards=8, per=350)     # <= 400 records per run: every bad record is listed
         b2 = [b for b in b23 if b["id"] < ST]
